@@ -151,13 +151,6 @@ def evaluate(v, cases, impl, model, stats, samples, distinct, listed):
         tags = cl.tree_classes(nodes, root)
         if "terminator" in tags:
             stats["excluded_bare_terminator"] += 1
-            # inside the excluded class: an else-chain whose final else is `;;` (C06-K5) builds a join entry that is
-            # the first arm's own entry; re-confirmed here, never counted as a property failure
-            if "chain_terminator" in tags and "C06-K5" in listed:
-                d5, why5 = cl.infer_native(lst)
-                if d5 is None:
-                    v.known_hit("C06-K5", "%r: %s" % (cl.case_source(case), why5))
-                    stats["known_hits"]["C06-K5"] = stats["known_hits"].get("C06-K5", 0) + 1
             continue
         if "empty_program" in tags:
             stats["excluded_empty_program"] += 1     # reports an entry that does not exist: C20-K2
